@@ -28,6 +28,8 @@ def build(rng, tier):
                     continue
                 sel = [1] * n if rng.random() < 0.6 else [rng.randrange(2) for _ in range(n)]
                 mc.append(dict(op=rng.pick(OPS), keys=[[k] for k in ks], kenc=[rng.pick(["f64", "str"])], vals=list(vs), sel=sel, levels=[1]))
+                if n >= 2 and rng.random() < 0.3 and not (mc[-1]["kenc"][0] == "str" and ks[0] == NULL):
+                    mc[-1]["T"] = 2          # chunk-wise factorized key
     # two / three keys with sparse combinations and nulls, every level subset
     for _ in range(2500 if tier == "quick" else 30000):
         nk = rng.pick([2, 2, 3])
